@@ -1165,6 +1165,7 @@ fn through_local(c: &mut Ctx, tz: &str, z: &Zc) {
 }
 
 pub fn run(c: &mut Ctx) {
+    crate::aliases::c05(c);
     if std::env::var("C05_DEBUG").is_ok() {
         let _ = std::panic::take_hook(); // loud panics while debugging the harness itself
     }
